@@ -468,7 +468,7 @@ func (r *Run) execFunc(fn *ssa.Function, st *State, args []*Val, bind []*Val, de
 		r.toolErr("no body for %s", fnName(fn))
 		return nil
 	}
-	fr := &Frame{fn: fn, vals: map[ssa.Value]*Val{}, cellsBy: map[string][]*Cell{}, allocs: map[*ssa.Alloc]*Cell{}, depth: depth, top: top, loopOld: map[*ssa.BasicBlock]string{}}
+	fr := &Frame{fn: fn, vals: map[ssa.Value]*Val{}, cellsBy: map[string][]*Cell{}, allocs: map[*ssa.Alloc]*Cell{}, depth: depth, top: top, loopOld: map[*ssa.BasicBlock]string{}, loopPre: map[*ssa.BasicBlock]*State{}}
 	for i, p := range fn.Params {
 		if i < len(args) {
 			fr.vals[p] = args[i]
@@ -510,7 +510,7 @@ func (r *Run) enterBlock(fr *Frame, st *State, b, prev *ssa.BasicBlock) bool {
 		}
 		if back {
 			for _, inv := range ls.Invariants {
-				g := r.evalBool(&Env{r: r, st: st, old: r.entry, fr: fr, vars: r.varsFor(fr)}, inv.Expr)
+				g := r.evalBool(&Env{r: r, st: st, old: r.entry, pre: fr.loopPre[b], fr: fr, vars: r.varsFor(fr)}, inv.Expr)
 				r.emit(st, prefix+"/preserve:"+inv.Label, "loop", propsOr(inv.Props, ctProps(ct)), g)
 			}
 			if ls.Decreases != nil {
@@ -519,13 +519,15 @@ func (r *Run) enterBlock(fr *Frame, st *State, b, prev *ssa.BasicBlock) bool {
 			}
 			return false
 		}
+		pre := st.clone()
+		fr.loopPre[b] = pre
 		for _, inv := range ls.Invariants {
-			g := r.evalBool(&Env{r: r, st: st, old: r.entry, fr: fr, vars: r.varsFor(fr)}, inv.Expr)
+			g := r.evalBool(&Env{r: r, st: st, old: r.entry, pre: pre, fr: fr, vars: r.varsFor(fr)}, inv.Expr)
 			r.emit(st, prefix+"/entry:"+inv.Label, "loop", propsOr(inv.Props, ctProps(ct)), g)
 		}
 		r.havocLoop(fr, st, b)
 		for _, inv := range ls.Invariants {
-			st.assume(r.evalBool(&Env{r: r, st: st, old: r.entry, fr: fr, vars: r.varsFor(fr)}, inv.Expr))
+			st.assume(r.evalBool(&Env{r: r, st: st, old: r.entry, pre: pre, fr: fr, vars: r.varsFor(fr)}, inv.Expr))
 		}
 		if ls.Decreases != nil {
 			m := r.evalTerm(&Env{r: r, st: st, old: r.entry, fr: fr, vars: r.varsFor(fr)}, ls.Decreases)
@@ -670,7 +672,18 @@ func (r *Run) collectMods(fn *ssa.Function, b *ssa.BasicBlock, m *modSet, depth 
 			}
 			r.addrMods(x.Addr, m)
 		case *ssa.MapUpdate:
-			m.all = true
+			mt := x.Map.Type().Underlying().(*types.Map)
+			inN, lenN := mapArrNames(mt)
+			m.heap[inN] = true
+			m.heap[lenN] = true
+			et := mt.Elem()
+			if _, isStruct := et.Underlying().(*types.Struct); isStruct && !isOpaqueNamed(et) {
+				for _, lf := range structLeaves(et) {
+					m.heap[mapValArr(mt, lf.name)] = true
+				}
+			} else {
+				m.heap[mapValArr(mt, "")] = true
+			}
 		case *ssa.Call:
 			r.callMods(fn, &x.Call, m, depth)
 		case *ssa.Defer:
